@@ -96,6 +96,8 @@ def case_st(draw):
             # a second downstream request through the same location: it connects to the upstream after the first one and
             # is answered later (conforming 20 response), the first one finishes (or fails) while it is still pending
             "overlap": draw(st.integers(0, 3)) == 0,
+            # the same URL was relayed (twice) before, when the upstream still answered otherwise
+            "prior": draw(st.sampled_from([None, None, None, "31", "31", "30", "20", "51"])),
             "tls_chunk": draw(st.sampled_from([0, 0, 5, 50]))}
 
 
@@ -203,6 +205,26 @@ def run_case(case: dict):
             route = ProxyHandler(upstream="gemini://up.example", prefix="/", strip_prefix=False, timeout=TIMEOUT).handle
         else:
             route = _router_from_toml(case["via"], TIMEOUT, bool(case.get("sibling"))).route
+        n0 = 0
+        if case.get("prior"):
+            # the same URL was asked for before through the same location, and the upstream answered differently then
+            # (it has changed since): what counts is what the upstream says now
+            old = {"31": b"31 gemini://old.example/moved\r\n", "30": b"30 gemini://old.example/temp\r\n",
+                   "20": b"20 text/gemini\r\nOLD-BODY", "51": b"51 gone for now\r\n"}[case["prior"]]
+            net.add("up.example", 1965, memnet.ScriptedPeer(certs.get("ec-a"), [("wait_request", 1.0), ("send", old), ("close",)]))
+            for _rep in range(2):
+                tr0 = FakeTransport(loop, peername=("192.0.2.77", 40009))
+                tr0.attach(GeminiServerProtocol(route, None))
+                tr0.feed(b"gemini://front.example/page?q=1\r\n")
+                for _ in range(200):
+                    if tr0.closed_by_app() or tr0.lost:
+                        break
+                    await asyncio.sleep(0.1)
+            net.peers.pop(("up.example", 1965), None)
+            if fault != "refuse":
+                net.add("up.example", 1965, up)
+            await asyncio.sleep(5)
+            n0 = len(loop.connection_log)
         tr = FakeTransport(loop)
         proto = GeminiServerProtocol(route, None)
         tr.attach(proto)
@@ -225,7 +247,7 @@ def run_case(case: dict):
             await asyncio.sleep(0.1)
         t_resp = loop.time() - t0
         await asyncio.sleep(100)
-        return tr, t_resp, [(h, p) for (h, p, _t) in loop.connection_log], up, (tr2.written() if tr2 is not None else None)
+        return tr, t_resp, [(h, p) for (h, p, _t) in loop.connection_log[n0:]], up, (tr2.written() if tr2 is not None else None)
 
     tr, t_resp, conns, up, S_second = vloop.run(scenario, horizon=1e6)
     S = tr.written()
